@@ -141,6 +141,39 @@ var kfScripts = []kfScript{
 			w.Record.Point().CopyFrom(src)
 			write()
 		}},
+	{"regrow-hidden-elements-unlinked",
+		"Attributes [k0, k1 -> KVList{n0,n1}, k2]; Write; EnsureLen(1); Write; EnsureLen(8) (past the capacity), pair 1 again a KVList{n0:x2,n1:y2}; Write; only KVList value n0 changes; Write  -- elements hidden by the shrink move with the reallocated backing array; if they are not re-linked, the nested list's values mark a dead tracker (regression script for a seeded change; the code is correct)", pkg.WriterOptions{},
+		func(w *otelstef.MetricsWriter, write func()) {
+			attrs := w.Record.Attributes()
+			fill := func(x string) {
+				attrs.SetKey(1, "k1")
+				attrs.Value(1).SetType(otelstef.AnyValueTypeKVList)
+				kv := attrs.Value(1).KVList()
+				kv.EnsureLen(2)
+				kv.SetKey(0, "n0")
+				kv.Value(0).SetString("x" + x)
+				kv.SetKey(1, "n1")
+				kv.Value(1).SetString("y" + x)
+			}
+			attrs.EnsureLen(3)
+			attrs.SetKey(0, "k0")
+			attrs.Value(0).SetString("v0")
+			fill("")
+			attrs.SetKey(2, "k2")
+			attrs.Value(2).SetString("v2")
+			write()
+			attrs.EnsureLen(1)
+			write()
+			attrs.EnsureLen(8)
+			for i := 2; i < 8; i++ {
+				attrs.SetKey(i, fmt.Sprintf("k%d", i))
+				attrs.Value(i).SetString(fmt.Sprintf("v%d", i))
+			}
+			fill("2")
+			write()
+			attrs.Value(1).KVList().Value(0).SetString("x3")
+			write()
+		}},
 	{"append-orphan-element",
 		"e=NewExemplar{SetTimestamp(5)}; Point().Exemplars().Append(e); Write(); Point().Exemplars().At(0).SetTimestamp(6); Write()  -- Append stores the pointer without linking the element to the array's parent: later changes of the element never mark Point/Exemplars", pkg.WriterOptions{},
 		func(w *otelstef.MetricsWriter, write func()) {
